@@ -309,6 +309,24 @@ impl CanonicalRequest {
 //@ end
     pub open spec fn first_auth_header(&self) -> Seq<u8> { self.hview()[H_AUTHORIZATION()][0] }
     pub open spec fn first_query_alg(&self) -> Seq<u8> { self.qview()[Q_ALGORITHM()][0] }
+    pub proof fn lemma_hview_key(&self, k: Seq<u8>)
+        ensures self.hview().contains_key(k) ==> self.hd().contains_key(string_of_bytes(k)) && str_bytes(string_of_bytes(k)@) == k
+    {}
+    pub proof fn lemma_first_values(&self)
+        requires self.wf()
+        ensures
+            self.hview().contains_key(H_AUTHORIZATION()) == self.hd().contains_key(string_of_bytes(H_AUTHORIZATION())),
+            self.hd().contains_key(string_of_bytes(H_AUTHORIZATION())) ==> self.hd()[string_of_bytes(H_AUTHORIZATION())]@.len() > 0
+                && self.first_auth_header() == self.hd()[string_of_bytes(H_AUTHORIZATION())]@[0]@,
+            self.qview().contains_key(Q_ALGORITHM()) == self.qp().contains_key(string_of_bytes(Q_ALGORITHM())),
+            self.qp().contains_key(string_of_bytes(Q_ALGORITHM())) ==> self.qp()[string_of_bytes(Q_ALGORITHM())]@.len() > 0
+                && self.first_query_alg() == str_bytes(self.qp()[string_of_bytes(Q_ALGORITHM())]@[0]@),
+    {
+        let ka = string_of_bytes(H_AUTHORIZATION());
+        let kq = string_of_bytes(Q_ALGORITHM());
+        if self.headers@.contains_key(ka) { assert(self.headers@[ka]@.len() > 0); assert(self.hview()[H_AUTHORIZATION()] == vecs_bytes(self.headers@[ka]@)); }
+        if self.query_parameters@.contains_key(kq) { assert(self.query_parameters@[kq]@.len() > 0); assert(self.qview()[Q_ALGORITHM()] == vals_bytes(self.query_parameters@[kq]@)); }
+    }
     /// exactly one carrier is present and its extraction succeeded with `p`
     pub open spec fn carrier_selected(&self, p: AuthParams) -> bool {
         let ha = self.hview().contains_key(H_AUTHORIZATION());
@@ -357,14 +375,12 @@ impl CanonicalRequest {
     hide(CanonicalRequest::header_carrier_fails);
     hide(CanonicalRequest::query_carrier_ok);
     hide(CanonicalRequest::query_carrier_missing);
+    hide(hmap);
+    hide(qmap);
     broadcast use axiom_contains_str_key, axiom_maps_str_key_to_value, axiom_string_of_str_bytes, axiom_string_key_model;
     proof {
         lemma_params_literals();
-        broadcast use axiom_string_of_bytes;
-        let ka = string_of_bytes(H_AUTHORIZATION());
-        let kq = string_of_bytes(Q_ALGORITHM());
-        if self.headers@.contains_key(ka) { assert(self.headers@[ka]@.len() > 0); assert(self.hview()[H_AUTHORIZATION()] == vecs_bytes(self.headers@[ka]@)); }
-        if self.query_parameters@.contains_key(kq) { assert(self.query_parameters@[kq]@.len() > 0); assert(self.qview()[Q_ALGORITHM()] == vals_bytes(self.query_parameters@[kq]@)); }
+        self.lemma_first_values();
     }
 //@ before 1 `let mut found_host = false;`
     let ghost signed = params.signed();
@@ -418,6 +434,7 @@ impl CanonicalRequest {
             proof {
                 assert forall|k: Seq<u8>| #[trigger] hv.contains_key(k) && pfx.is_prefix_of(k) implies signed.contains(k) by {
                     let ks = string_of_bytes(k);
+                    self.lemma_hview_key(k);
                     assert(self.headers@.contains_key(ks) && str_bytes(ks@) == k);
                 }
             }
